@@ -443,7 +443,7 @@ pub fn canaries(m: &mut Mon) {
     m.canary(|m| check_rec(m, "canary", Op::Mul(2.0), &ends, &q.segments));
 }
 
-pub const FLOORS: &[&str] = &["nonfinite_translate_checked", "mul_assign_vs_mul_compared", "value_level_checks", "rec_functions", "rec_single_piece", "real:Piecewise:mul:Poly3", "real:Piecewise:neg:IntOfLogPoly4", "real:Segment:mul_assign_ref:Poly8", "real:Piecewise:mul_assign:Log<Poly4>"];
+pub const FLOORS: &[&str] = &["nonfinite_translate_checked", "mul_assign_vs_mul_compared", "value_level_checks", "rec_functions", "rec_functions_with_nan_breakpoint", "rec_single_piece", "real:Piecewise:mul:Poly3", "real:Piecewise:neg:IntOfLogPoly4", "real:Segment:mul_assign_ref:Poly8", "real:Piecewise:mul_assign:Log<Poly4>"];
 
 pub fn run(a: &Args, m: &mut Mon) {
     m.floors(FLOORS);
@@ -463,7 +463,14 @@ pub fn run(a: &Args, m: &mut Mon) {
                 }
             }
         };
-        let (ends, _c) = gen_ends_any(&mut r, nn);
+        let (mut ends, _c) = gen_ends_any(&mut r, nn);
+        if r.below(12) == 0 {
+            // the statement quantifies over all piecewise functions: a NaN breakpoint ("no upper bound" marker, a
+            // poisoned value) must come back bit for bit as well; the recorder lane compares bit patterns only
+            let i = r.usize(0, ends.len() - 1);
+            ends[i] = f64::from_bits(0x7ff8_0000_0000_0000 | (r.next_u64() & 0xffff) | ((r.next_u64() & 1) << 63));
+            m.count("rec_functions_with_nan_breakpoint");
+        }
         m.count("rec_functions");
         if ends.len() == 1 {
             m.count("rec_single_piece");
